@@ -37,7 +37,7 @@ func TestC11(t *testing.T) {
 		maxAuth = 65535
 	}
 	gen.Prop(t, "honest-worlds", gen.N(1600, 60000), func(t *rapid.T) {
-		w, d := gen.DrawWorld(t, gen.WorldCfg{MaxAuth: maxAuth})
+		w, d := gen.DrawWorld(t, gen.WorldCfg{MaxAuth: maxAuth, RealNow: true})
 		w.Build()
 		if sc := w.SelfCheck(); sc != "" {
 			gen.HarnessError(t, "generated world is not self-consistent: %s", sc)
@@ -56,6 +56,17 @@ func TestC11(t *testing.T) {
 			pool = gen.PoolOf(certs...)
 		}
 		msg := w.Q.ToProto()
+		// one options value carried through the levels (as a caller raising the checking level would do)
+		shared := w.Options(gen.LvlBase, w.NewGetter(), pool)
+		for _, l := range []gen.Level{gen.LvlColl, gen.LvlBase, gen.LvlColl, gen.LvlCRL} {
+			shared.GetCollateral, shared.CheckRevocations = l >= gen.LvlColl, l == gen.LvlCRL
+			gen.Eval()
+			if v := gen.Call(func() error { return verify.RawTdxQuote(w.Raw, shared) }); !v.Accepted() {
+				key := fmt.Sprintf("rejects-honest:reused-options:%s:%s", l, errClass(v.Err))
+				gen.Fail(t, gen.Violation{Key: key, Oracle: "every honest in-date quote is accepted at every level", Detail: fmt.Sprintf("options value re-used across levels, now %s, world=[%s]: %s", l, d, v), Replay: w.CaseFile(l, nil, nil, certs, "accept")})
+				return
+			}
+		}
 		for _, l := range []gen.Level{gen.LvlBase, gen.LvlColl, gen.LvlCRL} {
 			for _, viaRaw := range []bool{true, false} {
 				g := w.NewGetter()
